@@ -99,6 +99,14 @@ func examples(s *spec.Spec) {
 		{Name: "show", NoSec: nosec, Payload: ref(), Result: ref(), HTTP: &spec.HTTP{Routes: []spec.Route{{Verb: "POST", Path: "/show"}}}},
 		{Name: "find", NoSec: nosec, Payload: ref(), Result: ref(), HTTP: &spec.HTTP{Routes: []spec.Route{{Verb: "GET", Path: "/find/{fmt_uuid}"}},
 			Path: []spec.Loc{{Attr: "fmt_uuid"}}, Query: []spec.Loc{{Attr: "fmt_date"}, {Attr: "ids"}, {Attr: "pat"}}, Headers: []spec.Loc{{Attr: "fmt_email", Wire: "X-Email"}}, Body: "empty"}},
+		// several cookies and headers in the request and in one response: whatever the generators collect by name
+		// (maps) before they print it must come out in one order
+		{Name: "jar", NoSec: nosec, Payload: ref(), Result: ref(), HTTP: &spec.HTTP{Routes: []spec.Route{{Verb: "PUT", Path: "/jar"}},
+			Cookies: []spec.Loc{{Attr: "pat", Wire: "c-pat"}, {Attr: "len", Wire: "c-len"}, {Attr: "fmt_mac", Wire: "c-mac"}, {Attr: "fmt_ip"}},
+			Headers: []spec.Loc{{Attr: "fmt_email", Wire: "X-Email"}, {Attr: "fmt_hostname", Wire: "X-Host"}, {Attr: "fmt_uri", Wire: "X-Uri"}},
+			Responses: []*spec.HTTPResponse{{Status: 200,
+				Cookies: []spec.Loc{{Attr: "pat", Wire: "r-pat"}, {Attr: "len", Wire: "r-len"}, {Attr: "fmt_mac", Wire: "r-mac"}, {Attr: "fmt_ip"}, {Attr: "fmt_cidr", Wire: "r-cidr"}},
+				Headers: []spec.Loc{{Attr: "fmt_email", Wire: "X-Email"}, {Attr: "fmt_hostname", Wire: "X-Host"}, {Attr: "fmt_uri", Wire: "X-Uri"}, {Attr: "fmt_date", Wire: "X-Date"}}}}}},
 	}})
 	s.AddFeature("example-bearing-attributes")
 }
